@@ -27,10 +27,14 @@ def jobs(pid, tier):
         h.setdefault('opts', PROPS[pid].get('opts', {}))
         tl = h['types'][tier] if isinstance(h['types'], dict) else h['types']
         params = dict(h.get('params', {}).get(tier, {}))
+        splits = h.get('splits', {}).get(tier) if isinstance(h.get('splits'), dict) else h.get('splits')
         for t in tl:
-            opts = dict(h.get('opts', {}))
-            opts['params'] = params
-            out.append({'entry': ename(h['name'], t), 'opts': opts})
+            for fx in (splits or [None]):
+                opts = dict(h.get('opts', {}))
+                opts['params'] = params
+                if fx:
+                    opts['fix'] = fx
+                out.append({'entry': ename(h['name'], t), 'opts': opts})
     return out
 
 
@@ -169,3 +173,49 @@ prop('C20', opts={'abstract_fp': True},
      [{'name': 'C20_' + fn, 'types': {'quick': conv_pairs(fn, 1)[:1], 'thorough': conv_pairs(fn, 2)}} for fn in CONVS],
      bounds='zero channels with every requested length/capacity 0..3; zero capacity with 1..3 channels; zero-length windows at every frame of a 2-frame buffer; ChannelLength(n,0) for every int n (symbolic); all nine conversions in the four degenerate configurations',
      outside=['Alloc with Length > Capacity (make panics; outside Alloc contract)'])
+
+IFAMS = {'Signed': INTS_S, 'Unsigned': INTS_U}
+IQ = {'Signed': ['int8', 'int32', 'int64'], 'Unsigned': ['uint8', 'uint16', 'uint64']}
+
+
+def ipairs(sf, df, quick):
+    src = IQ if quick else IFAMS
+    return [(a, b) for a in src[sf] for b in src[df]]
+
+
+prop('C06',
+     harnesses=[{'name': 'C06_%sAs%s' % (a, b), 'types': {'quick': ipairs(a, b, True), 'thorough': ipairs(a, b, False)}} for a in IFAMS for b in IFAMS],
+     bounds={'quick': 'every pair of source samples over the full width of the source type (2 symbolic samples; 64-bit sources included in full, not sampled), 36 element-type pairs; buffers of 1 channel x 2 frames; bit depths and scales are concrete after partial evaluation',
+             'thorough': 'same for all 121 signed/unsigned element-type pairs'},
+     outside=['buffers with more frames/channels (position-wise behaviour is C05)'])
+
+prop('C07',
+     harnesses=[{'name': 'C07_%sAs%s' % (a, b), 'types': {'quick': ipairs(a, b, True), 'thorough': ipairs(a, b, False)}} for a in IFAMS for b in IFAMS] +
+     [{'name': 'C07_RT_%s%s' % (a, b), 'types': {'quick': ipairs(a, b, True), 'thorough': ipairs(a, b, False)}} for a in IFAMS for b in IFAMS],
+     bounds={'quick': 'every source sample over the full width (symbolic); narrowing and equal-depth pairs among 36 element-type pairs; widening pairs composed with the narrowing function that returns to the original format',
+             'thorough': 'all 121 pairs'},
+     outside=['buffers with more frames/channels (position-wise behaviour is C05)'])
+
+prop('C10',
+     harnesses=[{'name': 'C10_Cycle', 'types': {'quick': ['int8', 'uint16', 'float64'], 'thorough': ALL},
+                 'params': {'quick': {'MaxPoolC': 2, 'MaxPoolK': 2}, 'thorough': {'MaxPoolC': 3, 'MaxPoolK': 3}},
+                 'covers': ['use-write', 'use-append-sample', 'use-append', 'use-shorter-slice', 'use-longer-slice']},
+                {'name': 'C10_TwoCycles', 'types': {'quick': ['int8', 'float64'], 'thorough': QUICK_T},
+                 'params': {'quick': {'MaxPoolC': 2, 'MaxPoolK': 1}, 'thorough': {'MaxPoolC': 2, 'MaxPoolK': 2}}}],
+     bounds={'quick': 'allocators with 1..2 channels, capacity 0..2 frames, every length 0..capacity; one inductive step get/arbitrary use/put/get where use = overwrite the whole capacity with symbolic samples then one of {nothing, 1..C+1 single-sample appends, buffer append of 0..2 frames, frame-0 reslice shorter, frame-0 reslice longer}; sync.Pool modelled as a multiset whose Get returns any pooled item or a new one; two-buffer variant with capacity <= 1 frame',
+             'thorough': '1..3 channels, capacity 0..3 frames; all 13 element types; two-buffer variant up to 2 frames'},
+     level_note='One inductive step from an arbitrary reachable buffer state covers histories of any length provided every pooled buffer is fresh (that is what the step re-establishes); the two-cycle harness is a sanity unrolling.',
+     outside=['sync.Pool internals (modelled, not verified)', 'larger shapes'])
+
+prop('C12',
+     harnesses=[{'name': 'C12_Step', 'types': {'quick': ['int8', 'float64'], 'thorough': QUICK_T},
+                 'splits': [{'s1.op': o, 'C': c} for o in range(5) for c in (1, 2, 3)],
+                 'params': {'quick': {'MaxC': 2, 'MaxK': 2, 'MaxKB': 1, 'Views': 1}, 'thorough': {'MaxC': 3, 'MaxK': 2, 'MaxKB': 1, 'Views': 2}},
+                 'covers': ['op-slice', 'op-append-sample', 'op-append', 'op-set-sample', 'op-write', '@append-grow', '@append-inplace']},
+                {'name': 'C12_Chain', 'types': {'quick': ['int8'], 'thorough': ['int8', 'float64']},
+                 'splits': [{'s0.op': o, 'C': c} for o in range(5) for c in (1, 2)],
+                 'params': {'quick': {'MaxC': 2, 'MaxK': 1, 'MaxKB': 1, 'Views': 0, 'Depth': 2}, 'thorough': {'MaxC': 2, 'MaxK': 2, 'MaxKB': 1, 'Views': 1, 'Depth': 2}}}],
+     bounds={'quick': 'state: storage A with 1..2 channels and 0..2 frames seen through its full view and 1 arbitrary window (overlap allowed; thorough: 2 windows), storage B with 0..1 frames and one window, each window with 0..C-1 extra samples; one operation chosen from {Slice (start,end within -1..capacity+1), AppendSample, Append(vi<-vj) for every ordered pair incl. i=j and cross-storage, SetSample (index -1..len), Write (0..len+1 samples)} applied to the real buffers and to a reference model of plain Go slices; every view compared (len, cap, one symbolic position of its full capacity); chained variant: depth 2 over a smaller state',
+             'thorough': 'A: 1..3 channels, 0..2 frames, 2 windows; chain depth 2 over A with 0..2 frames and 1 window'},
+     level_note='The reference model uses Go append/copy/slice expressions, which are primitives of the encoder (and of the native replay), so growth capacities agree by construction. Append is compared only for frame-aligned operands and non-overlapping spare regions, as the property states.',
+     outside=['more than 4 live views / larger shapes', 'Append with unaligned lengths (unspecified)', 'Append whose source overlaps the destination spare capacity (excluded by C03/C12, other than self-append)'])
